@@ -59,7 +59,50 @@ THEOREMS = [
     "KrroodVerif.CD.C17_cex_subdiagram",
     "KrroodVerif.CD.C17_accessors",
     "KrroodVerif.CD.C17_accessors_pure",
+    "KrroodVerif.CD.C17_consistent",
+    "KrroodVerif.CD.C17_enum_one_to_one",
 ]
+
+
+def extra_obligations():
+    """Second tie, by translation: regenerate the `WrappedField` accessors from /repo's CURRENT `wrapped_field.py`
+    (Python ast -> Lean functions over `Ann` written in the primitives of Model/ClassDiagramPy.lean) and have the kernel
+    re-check, for every annotation, that each translated accessor equals the hand-written model under `Quirks.current`,
+    that the translated functions have the classification property, and that they are mutually consistent."""
+    import re
+    import subprocess
+    import core
+    from translate.c17_translate import generate as gen, TranslationError, THEOREM_NAMES
+    try:
+        text = gen(core.REPO)
+    except (TranslationError, SyntaxError, OSError, RecursionError) as e:
+        return [{"name": n, "ok": False, "detail": f"translator rejected the source: {e}"} for n in THEOREM_NAMES]
+    tmp = core.LEAN_DIR / ".lake" / "audit"
+    tmp.mkdir(parents=True, exist_ok=True)
+    f = tmp / f"C17Translated_{os.getpid()}.lean"
+    f.write_text(text + "".join(f"#print axioms {n}\n" for n in THEOREM_NAMES))
+    try:
+        p = subprocess.run(["lake", "env", "lean", str(f)], cwd=str(core.LEAN_DIR), capture_output=True, text=True,
+                           timeout=900)
+    finally:
+        try:
+            f.unlink()
+        except OSError:
+            pass
+    raw = (p.stdout or "") + (p.stderr or "")
+    out = " ".join(raw.split())
+    forbidden = re.search(r"\b(sorry|admit|native_decide|axiom)\b", text) is not None
+    res = []
+    for n in THEOREM_NAMES:
+        m = re.search(r"'" + re.escape(n) + r"' depends on axioms: \[([^\]]*)\]", out)
+        none = re.search(r"'" + re.escape(n) + r"' does not depend on any axioms", out)
+        ax = [a.strip() for a in m.group(1).split(",")] if m else ([] if none else None)
+        # a theorem the kernel accepted with admissible axioms stands on its own, whatever else in the file failed
+        ok = (not forbidden) and ax is not None and set(ax) <= core.ALLOWED_AXIOMS
+        res.append({"name": n, "ok": ok, "axioms": ax,
+                    "detail": "regenerated accessors:\n" + text[text.find("def container_types"):text.find("/-! ### Proof obligations")]
+                              + raw[:3000]})
+    return res
 MODEL_FUNCTION = ("CD.flags / CD.endpoint / CD.build / CD.derive / CD.stepOp / CD.reported (Model/ClassDiagram.lean) = "
                   "wrapped_field.py predicates, ClassDiagram.__post_init__, to_subdiagram_without_inherited_associations")
 TRUSTED = [
